@@ -58,7 +58,7 @@ TAG = {"direction": "direction", "distance": "distance", "angle": "angle", "s-di
 
 
 def run(ctx):
-    ctx.check_proofs()
+    ctx.check_proofs(extra_files=["Properties_C14_rule"])
     bdir = enet.binaries(ctx)
     rng = ctx.rng
     n = 48 if ctx.quick else 300
